@@ -13,10 +13,11 @@
 
     The reader model is tied to the C code by the differential run of
     bin/check C01 (engine fmt). *)
-From Coq Require Import NArith List Bool.
+From Coq Require Import NArith List Bool Lia.
 From KdV Require Import Fmt.Codec Fmt.CodecProofs Fmt.Rle Fmt.RleProofs
      Fmt.PfnModel Fmt.BitmapSpec Fmt.ImageSpec Fmt.DiskdumpModel Fmt.DiskdumpSpec Fmt.DiskdumpProofs
-     Fmt.S390Model Fmt.S390Spec Fmt.S390Proofs Fmt.LkcdModel Fmt.LkcdSpec Fmt.LkcdProofs Fmt.ReadProofs.
+     Fmt.S390Model Fmt.S390Spec Fmt.S390Proofs Fmt.LkcdModel Fmt.LkcdSpec Fmt.LkcdProofs Fmt.ReadProofs
+     Fmt.ElfModel Fmt.ElfSpec Fmt.ElfProofs Fmt.ElfRoundtrip Fmt.ElfOpenProofs.
 Import ListNotations.
 Local Open Scope N_scope.
 
@@ -127,6 +128,43 @@ Theorem C01_s390_roundtrip : forall l pages,
 Proof. exact s390_roundtrip. Qed.
 Print Assumptions C01_s390_roundtrip.
 
+(** * ELF core dumps *)
+
+(** Every well-formed ELF core (32/64-bit, either byte order, any machine, any
+    order of the program headers, gaps and extra bytes in the tables, NOTE
+    and other segments in between, LOAD segments with unaligned starts and
+    ends, [memsz > filesz], pages straddling two segments, virtual order
+    different from the physical order; LOAD segments pairwise disjoint): the
+    dump opens with the byte order, class and machine the header encodes, and
+    - for every page size, every page-aligned address, physical or virtual,
+    zero-fill on or off, and *whatever was looked up before* (any values of
+    the [last_load] / [last_vload] shortcut pointers) - [elf_get_page] returns
+    exactly the specified page: the file-backed bytes where a segment has
+    them, zeroes elsewhere, and NODATA when no file-backed (resp. memory)
+    byte lies in the page.
+    Not in this theorem: page size and pointer size (they come from
+    VMCOREINFO / the architecture tables, outside the reader), max_pfn. *)
+Theorem C01_elf_roundtrip : forall l segs pgsz,
+  elf_wf l segs -> 0 < pgsz ->
+  exists st0,
+    elf_open (read_files [encode_elf l segs]) 1 = Ok st0 /\
+    es_be st0 = el_be l /\ es_64 st0 = el_64 l /\ es_machine st0 = el_machine l /\
+    forall virt st, same_arrays st st0 ->
+    forall z addr, addr + pgsz < 2^64 ->
+      fst (elf_get_page (read_files [encode_elf l segs]) pgsz z virt st addr)
+        = spec_elf_page segs pgsz z virt addr /\
+      same_arrays (snd (elf_get_page (read_files [encode_elf l segs]) pgsz z virt st addr)) st0.
+Proof. exact elf_roundtrip. Qed.
+Print Assumptions C01_elf_roundtrip.
+
+(** the last-hit shortcut of [find_closest_*] never changes an answer *)
+Theorem C01_elf_shortcut_irrelevant : forall virt file st addr dist,
+  arr_ok virt (arrays virt st) -> addr + dist <= 2^64 -> 0 < dist ->
+  fst (find_closest file virt st addr dist) = lookup virt file (arrays virt st) addr dist /\
+  same_arrays (snd (find_closest file virt st addr dist)) st.
+Proof. exact find_closest_pure. Qed.
+Print Assumptions C01_elf_shortcut_irrelevant.
+
 (** * LKCD *)
 
 (** [_partial]: the reader model keeps the *content* of libkdumpfile's lazily
@@ -179,7 +217,7 @@ Theorem C01_read_range : forall (St : Type) (get_page : St -> N -> res bytes * S
   forall st addr n, Inv st -> addr + n <= 2^64 ->
   let '(status, data, st') := read_range get_page pgsz st addr n in
   Inv st' /\
-  exists m, N.of_nat m <= n /\ data = bytes_from page pgsz addr m /\
+  exists m, N.of_nat m <= n /\ data = ReadProofs.bytes_from page pgsz addr m /\
     ((status = KDUMP_OK /\ N.of_nat m = n) \/
      (N.of_nat m < n /\ page ((addr + N.of_nat m) / pgsz) = Err status)).
 Proof. exact (@read_range_spec). Qed.
@@ -312,6 +350,37 @@ Proof.
       unfold ex_toks. apply Forall_app. split.
       * apply Forall_forall. intros t Ht. apply repeat_spec in Ht. subst. cbn. intuition (discriminate || reflexivity).
       * repeat constructor; cbn; intuition (discriminate || reflexivity).
+Qed.
+
+Definition ex_elf_layout : elf_layout :=
+  {| el_be := true; el_64 := false; el_machine := 20; el_osabi := 0; el_flags := 0;
+     el_phoff_gap := 4; el_phent_extra := 8 |}.
+Definition ex_seg (ty phys virt : N) (data : bytes) (memsz gap : N) : elf_seg :=
+  {| sg_type := ty; sg_flags := 7; sg_phys := phys; sg_virt := virt; sg_data := data;
+     sg_filesz := len data; sg_memsz := memsz; sg_align := 0; sg_gap := gap |}.
+Definition ex_segs : list elf_seg :=
+  [ ex_seg 1 4090 8192 [1; 2; 3; 4; 5; 6; 7; 8; 9; 10] 20 3;
+    ex_seg 4 0 0 [9; 9; 9; 9] 0 0;
+    ex_seg 1 4110 4096 [11; 12] 2 1 ].
+
+Example C01_nonvacuous_elf :
+  elf_wf ex_elf_layout ex_segs /\
+  spec_elf_page ex_segs 4096 false false 4096 =
+    Ok ([7; 8; 9; 10] ++ zeros 10 ++ [11; 12] ++ zeros 4080) /\
+  spec_elf_page ex_segs 4096 false true 8192 = Ok ([1; 2; 3; 4; 5; 6; 7; 8; 9; 10] ++ zeros 4086).
+Proof.
+  split; [| split; vm_compute; reflexivity].
+  constructor.
+  - repeat constructor.
+  - repeat constructor; cbn; try reflexivity.
+  - repeat constructor; unfold is_load; cbn; intros; try discriminate; try reflexivity.
+  - repeat split; reflexivity.
+  - reflexivity.
+  - reflexivity.
+  - vm_compute. reflexivity.
+  - eexists. split; [left; reflexivity | reflexivity].
+  - left. eexists. split; [left; reflexivity |]. split; [reflexivity | discriminate].
+  - repeat constructor; unfold is_load; cbn; intros; try discriminate; lia.
 Qed.
 
 Example C01_nonvacuous_rle :
